@@ -205,5 +205,18 @@ let run (kind : string) (toks : string list) : string option =
      | _ ->
        let (p64, p32) = parsers_of_table orc in
        let doc = Drv_xmltree.parse_dump tree in
-       Some (show_res (XmlExtract.extract_all p64 p32 doc)))
+       Some (show_res (XmlExtract.extract_all_impl p64 p32 doc)))
+  | "XEWIT" ->
+    (* the tree of a witness document of Proofs/XeRefute.v / XeExtRecords.v, in the dump format *)
+    let d = match toks with
+      | ["w_base"] -> XeRefute.d_base | ["w_same_name"] -> XeRefute.d_same_name
+      | ["w_before_text"] -> XeRefute.d_before_text | ["w_comment_before_text"] -> XeRefute.d_comment_before_text
+      | ["w_bad_number"] -> XeRefute.d_bad_number | ["w_bad_number_hidden"] -> XeRefute.d_bad_number_hidden
+      | ["w_data3d"] -> XeRefute.d_data3d | ["w_data3d_captured"] -> XeRefute.d_data3d_captured
+      | ["w_limits"] -> XeRefute.d_limits | ["w_limits_captured"] -> XeRefute.d_limits_captured
+      | ["w_base_reg"] -> XeRefute.d_base_reg | ["w_inert"] -> XeRefute.d_inert
+      | ["w_proto_std"] -> XeExtRecords.d_proto_std | ["w_proto_ext"] -> XeExtRecords.d_proto_ext
+      | ["w_proto_ext_std_name"] -> XeExtRecords.d_proto_ext_std_name
+      | _ -> failwith "unknown witness" in
+    Some (Drv_xmltree.dump_doc d)
   | _ -> None
